@@ -40,7 +40,8 @@ type promRef struct {
 	fails   map[string]float64
 }
 
-func observer(pm *prom.Metrics, mine []*vegeta.Result, me int) {
+func observer(pm *prom.Metrics, mine []*vegeta.Result, me int, reuse bool) {
+	var slot vegeta.Result // one variable refilled for every observation, as a decode loop has it
 	for i := 0; i <= len(mine); i++ {
 		idx := int64(i)
 		if i == len(mine) {
@@ -50,7 +51,12 @@ func observer(pm *prom.Metrics, mine []*vegeta.Result, me int) {
 		if v == relQuit || i == len(mine) {
 			return
 		}
-		pm.Observe(mine[i])
+		if reuse {
+			slot = *mine[i]
+			pm.Observe(&slot)
+		} else {
+			pm.Observe(mine[i])
+		}
 	}
 }
 
@@ -192,6 +198,7 @@ func runProm(tt *testing.T, tape *simrt.Tape, keep bool) (out simrt.Outcome) {
 		}
 		w.Log.Addf("observers=%d results=%d labelsets=%d arms=%v metrics=%d", nobs, total, len(ref), arms, len(pms))
 		sample = map[string]any{"observers": nobs, "results": total, "label_sets": len(ref), "armed_breakpoints": len(arms)}
+		reuse := tape.Prob(1, 2)
 		w.Activate()
 		per := make([][]*vegeta.Result, nobs)
 		for i, r := range results {
@@ -200,7 +207,7 @@ func runProm(tt *testing.T, tape *simrt.Tape, keep bool) (out simrt.Outcome) {
 			per[o] = append(per[o], r)
 		}
 		for o := 0; o < nobs; o++ {
-			go observer(pms[o%len(pms)], per[o], o)
+			go observer(pms[o%len(pms)], per[o], o, reuse)
 		}
 		go scraper(reg)
 		scrapes, lastRel := 0, -1
